@@ -102,6 +102,7 @@ def array_schema(draw, dialect, depth, primitives_only=False, text=None):
     if "mini" in feats: s["minItems"] = max(0, n - draw(st.sampled_from([0, 0, 1])))
     if "maxi" in feats: s["maxItems"] = n + draw(st.sampled_from([0, 0, 1, 2]))
     if unique: s["uniqueItems"] = True
+    elif draw(st.integers(0, 3)) == 0: s["uniqueItems"] = False  # the default, spelled out
     return s, w
 
 @st.composite
